@@ -187,38 +187,158 @@ def _rm(path):
         os.remove(path)
 
 
-def save_reload(pt, path, store, device=None):
+def save_reload(pt, path, store, device=None, prior=None, pool=None):
     from quantem.diffractive_imaging.ptychography import Ptychography
-    _rm(path)
+    path = _target(path, store, prior, pool)
     pt.save(path, mode="o", store=store, save_raw_data=True, verbose=0)
     with warnings.catch_warnings():
         warnings.simplefilter("ignore")
         q = Ptychography.from_file(path, auto_reload_dataset=False, device=device)
-    _rm(path)
+    if prior is None:
+        _rm(path)
     return q
 
 
-def save_meta_reload(pt, path, store, cfg, device=None):
+def save_meta_reload(pt, path, store, cfg, device=None, prior=None, pool=None):
     """save() WITHOUT the raw data (the default): the dataset model is skipped and the learned scan
     positions / descan shifts travel in `_dataset_metadata`; from_file(path, dset=<the same data,
     freshly preprocessed>) attaches the dataset and puts the learned values back"""
     from quantem.diffractive_imaging.ptychography import Ptychography
-    _rm(path)
+    path = _target(path, store, prior, pool)
     pt.save(path, mode="o", store=store, save_raw_data=False, verbose=0)
     d = build(cfg).dset
     with warnings.catch_warnings():
         warnings.simplefilter("ignore")
         q = Ptychography.from_file(path, dset=d, device=device)
-    _rm(path)
+    if prior is None:
+        _rm(path)
     return q
 
 
-def clone_deepcopy(pt):
-    return pt.clone()
+# ------------------------------------------------------------------------------------------
+# round 5: checkpoint targets WITH A HISTORY.  The save under test (mode="o") goes onto a target that
+# already holds an earlier checkpoint of a DIFFERENT reconstruction state, written by the library's own
+# save() with the same store kind.  The earlier states come from a small family (`PRIORS`) that differs
+# from the saved state in the set of optimised models, the number of iterations / snapshots, the
+# scheduler, the object type / slice count / probe mode count, the validation split, and in whether the
+# raw data was saved.  Each (earlier state, store) is produced once per process by save() into a pool
+# directory and copied file by file to the target (identical bytes), so that a case with a history costs
+# a copy and not another reconstruction.  Within one case the targets are kept between interruptions: a
+# later save of the same run lands on the run's OWN earlier checkpoint.
+
+PRIORS = {
+    # every model optimised, more iterations than any quick case, a snapshot per iteration
+    "all_models_long": dict(cfg=dict(optimise=["object", "probe", "dataset"], opt="adam", sched="exp", snapshots=True,
+                                     num_probes=2), iters=7, raw=True),
+    # other object shape (two slices), two probe modes, learned tilt
+    "two_slices": dict(cfg=dict(optimise=["object", "probe"], opt="sgd_momentum", sched="plateau", num_slices=2,
+                                num_probes=2, learn_probe_tilt=True, snapshots=True), iters=3, raw=True),
+    # only the probe optimised, other object type
+    "probe_only_potential": dict(cfg=dict(optimise=["probe"], opt="adamw", sched="cyclic", obj_type="potential",
+                                          snapshots=True), iters=6, raw=True),
+    # object + dataset optimised, no scheduler, nothing else
+    "object_dataset_short": dict(cfg=dict(optimise=["object", "dataset"], opt="sgd", sched="none",
+                                          obj_type="pure_phase"), iters=2, raw=True),
+    # an earlier checkpoint written WITHOUT the raw data (carries `_dataset_metadata`, no dataset)
+    "dataless": dict(cfg=dict(optimise=["object", "probe", "dataset"], opt="adamw", sched="linear", snapshots=True,
+                              rich_constraints=True), iters=4, raw=False),
+    # a validation-loss history; object only
+    "object_only_val": dict(cfg=dict(optimise=["object"], opt="sgd_momentum", sched="exp", val_grid=True, scan=(2, 3)),
+                            iters=5, raw=True),
+    # a reconstruction that has not iterated at all (no optimiser, empty histories)
+    "fresh": dict(cfg=dict(), iters=0, raw=True),
+}
+_POOL = {}
 
 
-def clone_fallback(pt):
-    """clone() with copy.deepcopy failing for the Ptychography object: the serialise/reload branch"""
+def prior_cfg(kind):
+    from .props.C05 import base_cfg
+    return base_cfg(data_seed=97, rng_seed=4242, **PRIORS[kind]["cfg"])
+
+
+def prior_checkpoint(kind, store, pool):
+    """path of the pooled earlier checkpoint (written once per process by the library's save())"""
+    key = (kind, store, pool)
+    if key not in _POOL:
+        spec = PRIORS[kind]
+        cfg = prior_cfg(kind)
+        pt = build(cfg)
+        if spec["iters"]:
+            first_call(pt, cfg, spec["iters"])
+        os.makedirs(pool, exist_ok=True)
+        path = os.path.join(pool, "prior_%s%s" % (kind, ".zip" if store == "zip" else "_dir"))
+        _rm(path)
+        pt.save(path, mode="w", store=store, save_raw_data=spec["raw"], verbose=0)
+        _POOL[key] = path
+    return _POOL[key]
+
+
+def _target(path, store, prior, pool):
+    """prepare the target of the save under test.  Without a history: a fresh target (as before round 5).
+    With one: the earlier checkpoint is put there unless the run's own earlier checkpoint already is;
+    the target is handed to save() / from_file() as a str or as a pathlib.Path."""
+    if prior is None:
+        _rm(path)
+        return path
+    if not os.path.exists(path):
+        src = prior_checkpoint(prior["kind"], store, pool)
+        if store == "zip":
+            shutil.copyfile(src, path)
+        else:
+            shutil.copytree(src, path)
+    if prior.get("form") == "Path":
+        import pathlib
+        return pathlib.Path(path)
+    return path
+
+
+def prior_relation(prior, case_cfg, iters_at_save):
+    """coverage statistics: in what the earlier checkpoint differs from the state that is saved over it"""
+    pc = prior_cfg(prior["kind"])
+    it = PRIORS[prior["kind"]]["iters"]
+    out = []
+    if it and set(pc["optimise"]) - set(case_cfg["optimise"]):
+        out.append("optimised_models_the_saved_state_lacks")
+    if it > iters_at_save:
+        out.append("more_iterations")
+    if (it if pc.get("snapshots") else 0) > (iters_at_save if case_cfg.get("snapshots") else 0):
+        out.append("more_snapshots")
+    if it and pc["sched"] != case_cfg["sched"]:
+        out.append("other_scheduler")
+    if (pc["obj_type"], pc["num_slices"]) != (case_cfg["obj_type"], case_cfg.get("num_slices", 1)):
+        out.append("other_object_type_or_slices")
+    if pc["num_probes"] != case_cfg["num_probes"]:
+        out.append("other_probe_mode_count")
+    if not PRIORS[prior["kind"]]["raw"]:
+        out.append("earlier_checkpoint_without_raw_data")
+    return out
+
+
+def clean_targets(workdir, tag):
+    for f in os.listdir(workdir):
+        if f.startswith("c05_%s" % tag):
+            _rm(os.path.join(workdir, f))
+
+
+def clone_deepcopy(pt, tmpdir=None):
+    """clone(); when copy.deepcopy fails inside the library (it does for some configurations) the library
+    silently takes its serialise / reload branch, which writes a temporary archive: see clone_fallback"""
+    import tempfile
+    saved_tmp = tempfile.tempdir
+    if tmpdir is not None:
+        tempfile.tempdir = tmpdir
+    try:
+        return pt.clone()
+    finally:
+        tempfile.tempdir = saved_tmp
+
+
+def clone_fallback(pt, tmpdir=None):
+    """clone() with copy.deepcopy failing for the Ptychography object: the serialise/reload branch.
+    (The library names its temporary archive after a draw from the reconstruction's SEEDED generator, in
+    tempfile.gettempdir(): two check processes running the same case at the same time would share the name.
+    The temporary directory is therefore pointed at this process' work directory for the call.)"""
+    import tempfile
     from quantem.diffractive_imaging import ptychography as mod
 
     real = copy.deepcopy
@@ -231,33 +351,38 @@ def clone_fallback(pt):
             return real(x, memo)
 
     saved = mod.copy
+    saved_tmp = tempfile.tempdir
     mod.copy = _Copy
+    if tmpdir is not None:
+        tempfile.tempdir = tmpdir
     try:
         return pt.clone()
     finally:
         mod.copy = saved
+        tempfile.tempdir = saved_tmp
 
 
-def interrupt(pt, via, workdir, tag="x", cfg=None):
+def interrupt(pt, via, workdir, tag="x", cfg=None, prior=None):
+    kw = {} if prior is None else {"prior": prior, "pool": os.path.join(workdir, "pool")}
     if via == "to":
         pt.to("cpu")          # a device move between two reconstruct() calls: the SAME object goes on
         return pt
     if via == "meta":
-        return save_meta_reload(pt, os.path.join(workdir, "c05_%s_m.zip" % tag), "zip", cfg)
+        return save_meta_reload(pt, os.path.join(workdir, "c05_%s_m.zip" % tag), "zip", cfg, **kw)
     if via == "meta_dir":
-        return save_meta_reload(pt, os.path.join(workdir, "c05_%s_m_dir" % tag), "dir", cfg)
+        return save_meta_reload(pt, os.path.join(workdir, "c05_%s_m_dir" % tag), "dir", cfg, **kw)
     if via == "meta+to":
-        return save_meta_reload(pt, os.path.join(workdir, "c05_%s_m.zip" % tag), "zip", cfg, device="cpu")
+        return save_meta_reload(pt, os.path.join(workdir, "c05_%s_m.zip" % tag), "zip", cfg, device="cpu", **kw)
     if via == "zip":
-        return save_reload(pt, os.path.join(workdir, "c05_%s.zip" % tag), "zip")
+        return save_reload(pt, os.path.join(workdir, "c05_%s.zip" % tag), "zip", **kw)
     if via == "dir":
-        return save_reload(pt, os.path.join(workdir, "c05_%s_dir" % tag), "dir")
+        return save_reload(pt, os.path.join(workdir, "c05_%s_dir" % tag), "dir", **kw)
     if via == "zip+to":
-        return save_reload(pt, os.path.join(workdir, "c05_%s.zip" % tag), "zip", device="cpu")
+        return save_reload(pt, os.path.join(workdir, "c05_%s.zip" % tag), "zip", device="cpu", **kw)
     if via == "clone":
-        return clone_deepcopy(pt)
+        return clone_deepcopy(pt, tmpdir=workdir)
     if via == "clone_fallback":
-        return clone_fallback(pt)
+        return clone_fallback(pt, tmpdir=workdir)
     raise ValueError(via)
 
 
